@@ -250,13 +250,20 @@ fn newest_snapshot_ts(dir: &Path) -> u64 {
     listing(dir).0.iter().filter(|(k, _, _)| *k == 2).map(|(_, n, _)| *n).max().unwrap_or(0)
 }
 
+/// recovery modes the library offers; the property holds for every one of them (the model has no mode),
+/// so every (re)open picks one in turn
+static MODE_TICK: std::sync::atomic::AtomicU64 = std::sync::atomic::AtomicU64::new(0);
+fn next_mode() -> RecoveryMode {
+    match MODE_TICK.fetch_add(1, std::sync::atomic::Ordering::Relaxed) % 4 { 0 => RecoveryMode::Standard, 1 => RecoveryMode::Fast, 2 => RecoveryMode::Full, _ => RecoveryMode::Repair }
+}
+
 fn config(dir: &Path, flush: u64) -> StateConfig {
     StateConfig {
         state_dir: dir.to_path_buf(),
         flush_strategy: match flush % 4 { 0 => FlushStrategy::Always, 1 => FlushStrategy::Adaptive, 2 => FlushStrategy::Periodic(Duration::from_secs(3600)), _ => FlushStrategy::BufferSize(1 << 20) },
         checkpoint_interval: Duration::from_secs(86_400),
         enable_compression: false,
-        recovery_mode: RecoveryMode::Standard,
+        recovery_mode: next_mode(),
         max_state_size: 1 << 30,
     }
 }
